@@ -1,5 +1,5 @@
 PROP = dict(
-    coq=["Disk/DiskHarness.vo"],
+    coq=["Disk/DiskHarness.vo", "Disk/FloatExact.vo", "Disk/FloatExactProofs.vo"],
     legs=[
         dict(driver="disk", quick=6000, thorough=300000, shard=400,
              monitors=["refuse_exact (spec over Q: refused <-> free < floor(tau))", "refuse_monotone"]),
@@ -14,9 +14,13 @@ PROP = dict(
         dict(driver="diskhold", quick=4, thorough=24, shard=100, noshrink=True,
              monitors=["watcher_tracks (paused <-> last sample low)", "watcher_alternates"]),
     ],
-    partial="IEEE-754: the float operations of checkThreshold are exact on the domain (argument in DESIGN.md C18); "
-            "the float->uint64 conversion is modelled as floor where Go defines it (< 2^64) and left unconstrained beyond.",
-    assumptions=["binary64 multiplication/division by powers of two and total*25/128 for total <= 2^38 are exact",
-                 "uint64(f) = floor(f) for 0 <= f < 2^64 (Go spec); implementation-defined beyond, not compared"],
-    level_text="Theorems for all (total, free, operator value) triples: the decision equals free < floor(tau) with tau spelled as in the property (exact to the byte) wherever Go defines the float->uint64 conversion, monotone in free space for ALL inputs incl. NaN/Inf/out-of-range, branches meet at 256 GiB, watcher loop tracks the threshold on every tick sequence. Model tied to checkThreshold and to the real WatchDiskSpace loop by a boundary-dense differential check on every run, and to the real start-up check (controler.Start in a child process, job directory and working directory on different filesystems on opposite sides of the threshold; trivial when the machine offers only one filesystem), to the real command line path of the operator value (cobra flags -> viper -> InitConfig in a child process) (this leg found that exactly the value 20 was reset to 0; fixed by /repo 55466e0, model = the fixed code) and to the real pipeline with all watchers sharing the pause manager (the disk watcher's pause holds while the disk stays low, sync and async WARC writing).",
+    partial="IEEE-754: checkThreshold's float computation is modelled operation by operation in Flocq's binary64 (Disk/FloatExact.v) and PROVED equal "
+            "to the integer model on every volume size, free-space value and binary64 operator value (C18_float_exact; the default and the operator rule never round: "
+            "C18_float_default_exact, C18_float_operator_exact). These four theorems use the standard library's axioms of the real numbers "
+            "(ClassicalDedekindReals.sig_forall_dec, sig_not_dec, FunctionalExtensionality.functional_extensionality_dep, Classical_Prop.classic) through Flocq. "
+            "The float->uint64 conversion is truncation where Go defines it (result in [0, 2^64)) and left unconstrained beyond (both models say None on exactly the same inputs).",
+    assumptions=["Go's float64 arithmetic is IEEE-754 binary64 with round-to-nearest-even, no fused operations across the explicit float64() conversions (Go spec); Flocq 4.1.0's Binary/Bits formalisation of it",
+                 "uint64(f) = trunc(f) for 0 <= trunc(f) < 2^64 (Go spec); implementation-defined beyond, not compared",
+                 "axioms of R from Coq's standard library (sig_forall_dec, sig_not_dec, functional_extensionality_dep, classic) under the four C18_float_* theorems only"],
+    level_text="Theorems for all (total, free, operator value) triples: the decision equals free < floor(tau) with tau spelled as in the property (exact to the byte) wherever Go defines the float->uint64 conversion, monotone in free space for ALL inputs incl. NaN/Inf/out-of-range, branches meet at 256 GiB, watcher loop tracks the threshold on every tick sequence. The float computation itself (Flocq binary64, every operation of checkThreshold) is proved equal to that integer model for every binary64 operator value, NaN/Inf/subnormal/overflowing included (kernel-checked; standard-library axioms of R). Both models tied to checkThreshold (the Flocq model is run on the very float of each case) and to the real WatchDiskSpace loop by a boundary-dense differential check on every run, and to the real start-up check (controler.Start in a child process, job directory and working directory on different filesystems on opposite sides of the threshold; trivial when the machine offers only one filesystem), to the real command line path of the operator value (cobra flags -> viper -> InitConfig in a child process) (this leg found that exactly the value 20 was reset to 0; fixed by /repo 55466e0, model = the fixed code) and to the real pipeline with all watchers sharing the pause manager (the disk watcher's pause holds while the disk stays low, sync and async WARC writing).",
 )
